@@ -44,6 +44,10 @@ CHECKS = {
    text="spec/Lang.tla is a small-step abstract machine (CEK style: control, environment, continuation stack with seq/loop/switch/try/catch/finally/call frames, pending break/continue/return/throw, static storage) over JSON ASTs; TLC runs every generated program as one behaviour, checks the machine's own properties on every state (TargetExists, FrameIsolation, FinallyOnce, AllTriesLeft) and prints the echoed tokens; the same AST is unparsed to source and run on the real interpreter in subprocess workers; tokens and final status must agree. Programs: every nest of 2 (thorough 3) loops x {break n, continue n, return} x {if, switch case, try/finally}, switch fall-through / match, integer fast-path shapes, and 400 (thorough 5000) seeded typed programs with functions, defaults, recursion, statics and shadowing locals. Disagreements are re-run on the machine with the named deviations (break-level-ignored, switch-no-fallthrough, continue-in-switch-swallowed): predicted exactly => known finding, else VIOLATION.",
    note="Trusted: the Go unparser (fully parenthesised, one statement per line); values stay within +-10^6 (TLC integers are 32 bit); programs over the step budget are discarded and counted.",
    tech="TLA+ abstract machine (Lang.tla) executed by TLC as reference interpreter with invariants; generated programs replayed on the real interpreter"),
+ "C05": dict(cat="model_checking", ref="§5 C05",
+   text="The try/catch/finally part of spec/Lang.tla (frames try/catch/fin with the interrupted control saved; FinallyOnce and AllTriesLeft checked by TLC on every state of every program) decides catch selection, finally-exactly-once and finally-overrides: every depth-1 shape (8 body exits x 11 ordered catch lists over a 5-class hierarchy with an interface and unions x 4 catch-body exits x 5 finally exits x 3 contexts) is enumerated, depth-2 nestings are seeded, each program is run by TLC and by the real interpreter and the marker traces compared. spec/Process.tla (NonZeroOnFailure, FlushBeforeExit; deviation parse-error-exits-zero refuted) gives the process paths, each replayed as a real subprocess of the binary built from the working tree in both lexing modes.",
+   note="Trusted: identity of the caught object is observed through its message (unique per throw site), not with ===; subprocess exit status and stderr as observed by os/exec.",
+   tech="TLA+ abstract machine (Lang.tla) + Process.tla checked by TLC; enumerated try shapes and process paths replayed on the real interpreter / real subprocesses"),
 }
 NOT_YET = "check not built yet in this round (planned: TLA+ spec + conformance binding, see DESIGN.md §5)"
 def main():
